@@ -901,7 +901,13 @@ func (e *SpecEnv) callExpr(v *ast.CallExpr) Val {
 			// forall2(j, k, lo, hi, body): for all lo <= j < k < hi
 			return e.quant2(v.Args)
 		case "len":
-			return e.lenOf(e.eval(v.Args[0]))
+			lv := e.eval(v.Args[0])
+			if sc, ok := lv.(Scalar); ok && strings.HasPrefix(sc.T, "nocall!") {
+				// length of an argument/result of a callee that was not called on this path: unconstrained (keeps the "nocall"
+				// marker so that a comparison with it says nothing)
+				return Scalar{e.c.freshConst(e.s, "nocall", e.c.ar.idxSort()), e.c.ar.idxSort(), types.Typ[types.Int]}
+			}
+			return e.lenOf(lv)
 		case "cap":
 			sl, ok := e.eval(v.Args[0]).(SliceV)
 			if !ok {
@@ -988,7 +994,17 @@ func (e *SpecEnv) callExpr(v *ast.CallExpr) Val {
 			return Scalar{fmt.Sprintf("(>= (rootid %s) %s)", r, lo), SBool, boolT}
 		case "alias":
 			// alias(s, t, k): s is t[k : k+len(s)] (same backing array)
-			a, b := e.eval(v.Args[0]).(SliceV), e.eval(v.Args[1]).(SliceV)
+			av0, bv0 := e.eval(v.Args[0]), e.eval(v.Args[1])
+			a, okA := av0.(SliceV)
+			b, okB := bv0.(SliceV)
+			if !okA || !okB {
+				for _, o := range []Val{av0, bv0} {
+					if sc, ok := o.(Scalar); ok && strings.HasPrefix(sc.T, "nocall!") {
+						return Scalar{e.c.freshConst(e.s, "nocallcmp", SBool), SBool, boolT} // callee not called on this path
+					}
+				}
+				specFail("alias: both arguments must be slices")
+			}
 			k := e.idxTerm(e.eval(v.Args[2]))
 			return Scalar{fmt.Sprintf("(and (= %s %s) (= %s %s))", a.Arr, b.Arr, a.Off, e.c.idxAdd(b.Off, k)), SBool, boolT}
 		case "samebacking":
